@@ -585,8 +585,13 @@ package sam
 //@   requires forall(t, 0, len(recv(cAlignPair)), forall(j, 0, len(intregions), 1 <= intregions[j] && intregions[j] <= count(k, 0, len(recv(cAlignPair)[t].ref), recv(cAlignPair)[t].ref[k] != '-')))
 //@   requires forall(t, 0, len(recv(cAlignPair)), forall(r, 0, len(cdsregions), forall(j, 0, len(cdsregions[r].Positions), 1 <= cdsregions[r].Positions[j] && cdsregions[r].Positions[j] <= count(k, 0, len(recv(cAlignPair)[t].ref), recv(cAlignPair)[t].ref[k] != '-'))))
 //@   requires forall(r, 0, len(cdsregions), len(cdsregions[r].Translation) * 3 >= len(cdsregions[r].Positions))
+//@   # rows of different pairs do not share arrays (each pair is built from fresh rows by blockToSeqPair)
+//@   requires forall(t, 0, len(recv(cAlignPair)), forall(u, 0, len(recv(cAlignPair)), implies(t != u, disjoint(recv(cAlignPair)[t].ref, recv(cAlignPair)[u].ref) && disjoint(recv(cAlignPair)[t].query, recv(cAlignPair)[u].ref))))
 //@   loop 1:
 //@     writes everything
+//@     invariant [fits.int] forall(t, range_i, len(recv(cAlignPair)), forall(j, 0, len(intregions), 1 <= intregions[j] && intregions[j] <= count(k, 0, len(recv(cAlignPair)[t].ref), recv(cAlignPair)[t].ref[k] != '-')))
+//@     invariant [fits.cds] forall(t, range_i, len(recv(cAlignPair)), forall(r, 0, len(cdsregions), forall(j, 0, len(cdsregions[r].Positions), 1 <= cdsregions[r].Positions[j] && cdsregions[r].Positions[j] <= count(k, 0, len(recv(cAlignPair)[t].ref), recv(cAlignPair)[t].ref[k] != '-'))))
+//@     invariant [fits.tr] forall(r, 0, len(cdsregions), len(cdsregions[r].Translation) * 3 >= len(cdsregions[r].Positions))
 //@     invariant len(sent(cVariants)) == range_i && len(sent(cErr)) == 0
 //@     invariant forall(t, 0, range_i, sent(cVariants)[t].Queryname == recv(cAlignPair)[t].queryname && sent(cVariants)[t].Idx == recv(cAlignPair)[t].idx)
 //@   loop 2:
